@@ -185,6 +185,22 @@ def run(report, tier, seed):
                     note("aext", f"{nm}({desc}) = {val} is not an element that is extreme for the leading-term order", {"poly": lay})
         report.sample({"poly": desc, "lead_exponent": le[:3], "lead_coefficient": lc[:3], "isconstant": isc}, cap=5)
 
+    # ---- tiny (but non-zero) coefficients on non-constant terms: still not a constant ------------------------
+    q0, q1 = numpoly.variable(2)
+    for k in range(20 if tier == "quick" else 200):
+        tiny = rng.choice([2.0 ** -30, -2.0 ** -40, 1e-12, 2.0 ** -60])
+        p = rng.choice([tiny * q0 * q1 + q0 + 3, tiny * q1 + 2.0, numpoly.polynomial([1.0, tiny * q0 ** 2]), tiny * q0 + 0 * q1])
+        n_eval += 1
+        if bool(numpoly.isconstant(p)):
+            note("isconstant", f"isconstant({p}) = True although a non-constant term has the non-zero coefficient {tiny!r}", {"poly": str(p)})
+        try:
+            v = p.tonumpy()
+            note("tonumpy", f"tonumpy of the non-constant {p} returned {numpy.asarray(v).tolist()}", {"poly": str(p)})
+        except numpoly.FeatureNotSupported:
+            pass
+        le = numpy.asarray(numpoly.lead_coefficient(numpoly.polynomial(tiny * q0 * q1 + q0 + 3)))
+        if float(le) != tiny:
+            note("lead", f"lead_coefficient of {tiny!r}*q0*q1+q0+3 is {float(le)!r}", {"tiny": tiny})
     failed, errors = cc.run()
     report.coverage.update({
         "evaluations": n_eval, "distinct_nontrivial": len(nontrivial),
